@@ -39,6 +39,7 @@ def step (line : String) : String :=
   | "fitto" :: args => handleCli "fitto" args
   | "exportplan" :: args => handleCli "exportplan" args
   | "exportts" :: args => handleExport "exportts" args
+  | "canvas" :: args => handleExport "canvas" args
   | "findid" :: args => handleExport "findid" args
   | "gbox" :: args => handleBBox "gbox" args
   | "rectts" :: args => handleBBox "rectts" args
@@ -46,6 +47,8 @@ def step (line : String) : String :=
   | "collect" :: args => handleRefs "collect" args
   | "writenum" :: args => handleRefs "writenum" args
   | "esctext" :: args => handleRefs "esctext" args
+  | "writecolor" :: args => handleRefs "writecolor" args
+  | "parsecolor" :: args => handleRefs "parsecolor" args
   | "escattr" :: args => handleRefs "escattr" args
   | "finputs" :: args => handleRefs "finputs" args
   | "stops" :: args => handleValues "stops" args
